@@ -358,3 +358,9 @@ package ckks
 //@   case len(op0.Value) == 2 && len(op0.Value[0].Coeffs) == 2 && len(op0.Value[1].Coeffs) == 2 ; alias opOut = op0
 //@   requires !isnil(op0.MetaData) && !isnil(opOut.MetaData)
 //@   ensures implies(isnil(result), len(opOut.Value[0].Coeffs) >= 1)
+
+// ---- acceptance (property C19): an accepted literal has a default scale between 2^0 and 2^128, as the error
+// ---- text of the constructor says (finding F90: only the upper bound was tested)
+//@ afunc NewParametersFromLiteral
+//@   property C19
+//@   ensures implies(isnil(result1), 0 <= pl.LogDefaultScale && pl.LogDefaultScale <= 128)
